@@ -2,49 +2,12 @@
    concrete labels / chunks of Model/C03.v. *)
 From Coq Require Import ZArith NArith List Bool Lia Permutation Sorted.
 Import ListNotations.
-From Verif Require Import Lib.Corr Lib.Proxy_Order Lib.Proxy_Model Lib.Proxy_Proofs Lib.Proxy_LoserTree Gen.C03 Model.C03.
+From Verif Require Import Lib.Corr Lib.Proxy_Order Lib.Proxy_Model Lib.Proxy_Proofs Lib.Proxy_LoserTree Gen.C03 Model.C03 Proofs.C03_Inst.
 Open Scope Z_scope.
-
-Lemma option_eqb_N a b : option_eqb N.eqb a b = true <-> a = b.
-Proof.
-  destruct a, b; cbn; split; intro H; try discriminate; try reflexivity.
-  - apply N.eqb_eq in H. subst. reflexivity.
-  - inversion H. apply N.eqb_refl.
-Qed.
-
-Lemma keqb_spec a b : keqb a b = true <-> a = b.
-Proof. unfold keqb. apply list_eqb_spec. exact option_eqb_N. Qed.
-
-(* "ordered by time": by MinTime, then MaxTime *)
-Definition time_ord (a b : chunk) : Prop :=
-  cmin a < cmin b \/ (cmin a = cmin b /\ cmax a <= cmax b).
-
-Lemma cleb_true c d : cleb c d = true -> time_ord c d.
-Proof.
-  unfold cleb, aggr_compare, time_ord. intros H. apply negb_true_iff in H.
-  destruct (cmin d <? cmin c) eqn:A; [cbn in H; discriminate|].
-  destruct (cmin d >? cmin c) eqn:B; [apply Z.gtb_lt in B; lia|].
-  apply Z.ltb_ge in A. apply Z.gtb_ltb in B || idtac.
-  assert (cmin c = cmin d) by (rewrite Z.gtb_ltb in B; apply Z.ltb_ge in B; lia).
-  destruct (cmax d <? cmax c) eqn:A2; [cbn in H; discriminate|].
-  apply Z.ltb_ge in A2. lia.
-Qed.
-
-Lemma cleb_false c d : cleb c d = false -> time_ord d c.
-Proof.
-  unfold cleb, aggr_compare, time_ord. intros H. apply negb_false_iff in H.
-  destruct (cmin d <? cmin c) eqn:A; [apply Z.ltb_lt in A; lia|].
-  destruct (cmin d >? cmin c) eqn:B; [cbn in H; discriminate|].
-  apply Z.ltb_ge in A. rewrite Z.gtb_ltb in B. apply Z.ltb_ge in B.
-  destruct (cmax d <? cmax c) eqn:A2; [apply Z.ltb_lt in A2; lia|].
-  destruct (cmax d >? cmax c) eqn:B2; [cbn in H; discriminate|].
-  apply Z.ltb_ge in A2. rewrite Z.gtb_ltb in B2. apply Z.ltb_ge in B2. lia.
-Qed.
 
 Lemma limit_break_off limit : limit <= 0 -> forall i, limit_break limit i = false.
 Proof. intros H i. unfold limit_break. destruct (limit >? 0) eqn:E; [apply Z.gtb_lt in E; lia | reflexivity]. Qed.
 
-Definition wrlb (wrl : list str) : bool := match wrl with [] => false | _ => true end.
 Definition streams_of (lazy : bool) (wrl : list str) (scripts : list script) : list (list resp) :=
   map (resp_set lbl_cmp lazy (wrlb wrl) (rm_labels wrl)) scripts.
 
